@@ -593,7 +593,7 @@ int yr_object_copy(YR_OBJECT* object, YR_OBJECT** object_copy)
 
       FAIL_ON_ERROR_WITH_CLEANUP(yr_object_structure_set_member(copy, o),
                                  // cleanup
-                                 yr_free(o);
+                                 yr_object_destroy(o);
                                  yr_object_destroy(copy));
 
       structure_member = structure_member->next;
